@@ -36,6 +36,13 @@ def run(tier, seed):
             seen.add(k)
             uniq.append(s)
     wsprops.sweep('C05', res, m0, uniq, cfgs, 'sweep')
+    # how the workspace is addressed must not matter: current directory instead of -d, another patch directory (-p),
+    # thread count from RAPIDQUILT_THREADS instead of --threads
+    addr = [{'backup': 'always', 'threads': 1, 'quiet': True, 'no_d': True}, {'backup': 'never', 'threads': 2, 'quiet': True, 'no_d': True},
+            {'backup': 'always', 'threads': 1, 'quiet': True, 'patches_dir': 'other/dir'}, {'backup': 'onfail', 'threads': 2, 'quiet': False, 'patches_dir': 'pp'},
+            {'backup': 'always', 'threads': 2, 'quiet': True, 'threads_env': True}, {'backup': 'never', 'threads': 1, 'quiet': True, 'threads_env': True}]
+    small = [s for s in uniq if tq.series_dev(s) <= 1 and sum(len(p.fps) for p in s) <= 2][::(3 if tier == 'quick' else 1)]
+    wsprops.sweep('C05', res, m0, small, addr, 'workspace_addressing_sweep')
     cov = res.coverage
     cov['series'] = len(uniq)
     cov['bounds'] = bounds
